@@ -134,6 +134,7 @@ package rac
 //@   requires wOK(w) && w.dChunkSize > 0
 //@   ensures wOK(w)
 //@   modifies w.err, w.chunkWriter, mem(w.resourcesIDs), mem(w.chunkWriter.resourcesCOffCLens), w.uncompressed.p, w.uncompressed.curr
+//@   loop 1 invariant (base(w.chunkWriter.resourcesCOffCLens) == old(base(w.chunkWriter.resourcesCOffCLens)) || fresh(base(w.chunkWriter.resourcesCOffCLens)))
 //@   loop 1 invariant wOK(w) && unchanged(w.dChunkSize) && unchanged(w.uncompressed.prev) && unchanged(mem(w.uncompressed.prev)) && unchanged(mem(w.uncompressed.curr))
 //@   loop 1 decreases vlen(w.uncompressed)
 //@   assert@call Compress#1 [window] base(arg_p) == base(w.uncompressed.prev) && off(arg_p) == off(w.uncompressed.prev) + w.uncompressed.p && len(arg_p) <= len(w.uncompressed.prev) - w.uncompressed.p
